@@ -213,10 +213,15 @@ Fixpoint exec (c : cfg) (s : sys) (ls : list label) : outcome unit sys :=
 (* Deterministic scripts (what the harness does): after every operation the single
    threaded runtime runs every task to quiescence, i.e. LWait / LGrant fire while enabled. *)
 
-Inductive op := OAcq (p : Z) | OCancel (k : nat) | ODrop (k : nat) | OAdv (d : Z).
+(* OAdvX d: the clock moves by d but nothing is polled before the next operation (the woken sleeper
+   oversleeps: a clock jump, or the runtime is busy): the late wake-up schedules, in which e.g. a
+   Permit::drop at a later tick precedes the waiter's own `advance(need)` with an older tick. *)
+Inductive op := OAcq (p : Z) | OCancel (k : nat) | ODrop (k : nat) | OAdv (d : Z) | OAdvX (d : Z).
 
 Definition op_label (o : op) : label :=
-  match o with OAcq p => LBegin p | OCancel k => LCancel k | ODrop k => LDrop k | OAdv d => LTick d end.
+  match o with
+  | OAcq p => LBegin p | OCancel k => LCancel k | ODrop k => LDrop k | OAdv d => LTick d | OAdvX d => LTick d
+  end.
 
 (* The internal labels fired by [settle], most recent last. *)
 Fixpoint settle_labels (c : cfg) (fuel : nat) (s : sys) : list label :=
@@ -240,10 +245,14 @@ Definition settle_fuel (s : sys) : nat := 2 * length (queue s) + 2.
 Definition settle (c : cfg) (s : sys) : outcome unit sys :=
   exec c s (settle_labels c (settle_fuel s) s).
 
+(* the internal steps that follow an operation *)
+Definition op_settle (c : cfg) (o : op) (s : sys) : list label :=
+  match o with OAdvX _ => [] | _ => settle_labels c (settle_fuel s) s end.
+
 Definition do_op (c : cfg) (s : sys) (o : op) : outcome unit sys :=
   match step c s (op_label o) with
-  | Ok s' => settle c s'
-  | Err _ => Ok s
+  | Ok s' => exec c s' (op_settle c o s')
+  | Err _ => exec c s (op_settle c o s)     (* a no-op operation: the runtime still polls whoever is due *)
   | Panic p => Panic p
   end.
 
@@ -260,12 +269,17 @@ Fixpoint script_labels (c : cfg) (s : sys) (os : list op) : list label :=
   | o :: os' =>
       match step c s (op_label o) with
       | Ok s1 =>
-          let ls := settle_labels c (settle_fuel s1) s1 in
+          let ls := op_settle c o s1 in
           match exec c s1 ls with
           | Ok s2 => op_label o :: ls ++ script_labels c s2 os'
           | _ => op_label o :: ls
           end
-      | Err _ => script_labels c s os'
+      | Err _ =>
+          let ls := op_settle c o s in
+          match exec c s ls with
+          | Ok s2 => ls ++ script_labels c s2 os'
+          | _ => ls
+          end
       | Panic _ => [op_label o]
       end
   end.
